@@ -479,9 +479,10 @@ def unit_def(unit):
     if part == 'agree':
         # spec-only unit (C15): the Node / Number datatypes of two evaluators, each wrapped in its own module, and the
         # specification vocabularies of both; no executable function of /repo
-        files = [('src/eval_i64/ast.rs', ['enum Node']), ('src/eval_number/number.rs', ['enum Number']), ('src/eval_number/ast.rs', ['enum Node'])]
+        first = 'f64' if stack == 'f64number' else 'i64'
+        files = [('src/eval_%s/ast.rs' % first, ['enum Node']), ('src/eval_number/number.rs', ['enum Number']), ('src/eval_number/ast.rs', ['enum Node'])]
         return dict(stack=stack, part=part, files=files, contracts=os.path.join(VERIF, 'contracts', unit + '.vspec'),
-                    wrap=['isrc', 'nsrc', 'nsrc'])
+                    wrap=[first[0] + 'src', 'nsrc', 'nsrc'])
     d = 'src/' + STACK_DIR[stack]
     if part == 'core':
         files = [('src/utils/operator_category.rs', None), ('src/utils/parse_error.rs', ['enum ParseError']),
